@@ -96,14 +96,12 @@ PROPS['C17'] = dict(
     rule='random triple lists (1-12 triples over 3 IRIs, 1-6 blank nodes, 2 literals, blank-node density 30-80%) x 4 option combinations; a corpus of the defect shapes '
          '(two-cycle, self reference, three-cycle, tail off a cycle, shared node, never-described node, duplicate triple); all digraphs on 3 blank nodes x external references x 4 options '
          '(quick: every 7th, thorough: all 16380); datasets of 1-10 quads over 2-3 graph names incl. blank graph names, through Add and AddDatasetResource; non-trivial = >=2 blank nodes referenced',
-    partial=['C17_export_flatten_iso_statement: proved for Inline=false (C17_export_flatten_noinline_partial) and for the nesting test (single reference, self reference); '
-             'the Inline=true permutation / injectivity statement is stated as a Definition and decided by correspondence + oracle only'],
     trusted_base=['model/Descr.v mirrors rdfdescription/resource_list_builder.go and dataset_resource_list_builder.go (reference counts, only-referrer chain, pinned shared nodes, recursion on explicit fuel with an out-of-fuel marker)'],
     assumptions=['Go map iteration order is abstracted: exported resources are compared as sorted lists'],
-    explanation='model of the (fixed) export algorithm; theorems for the non-nested half and the nesting test; nested half by correspondence on all small digraphs plus random graphs and by the isomorphism oracle on the implementation',
-    level_text='Proof for Inline=false and for the nesting predicate (kernel-checked); for Inline=true the property is decided by model-vs-implementation correspondence on every digraph over 3 blank nodes and random graphs/datasets, '
-               'plus an isomorphism oracle on the implementation itself. Full statement kept visible as C17_export_flatten_iso_statement.',
-    level_note='Partial proof: the nested-export permutation theorem is not yet proved. Two fix: commits repaired the three defect shapes (cycles dropped, self reference recursing forever, nodes split across graphs).',
+    explanation='model of the (fixed) export algorithm; the full statement is a theorem of the model: for every graph, pinned set and option combination the flattened export is a permutation of the input, every nested or anonymous blank node loses its name exactly once, and the nesting depth stays within length+2 (so the recursion is bounded); per graph of a dataset; quads partitioned by graph name; blank nodes shared between graphs or naming a graph are pinned and never anonymous; the model is compared with the implementation on all small digraphs plus random graphs and datasets, and the implementation is checked by an isomorphism oracle',
+    level_text='Proof: C17_export_flatten_iso (every graph, every pinned set, all four option combinations: permutation of the input, anonymised nodes distinct, fuel never exhausted), C17_export_dataset_flatten, C17_quads_by_graph, '
+               'C17_shared_never_anonymous, C17_graph_name_pinned; the model is tied to the builders by correspondence on every digraph over 3 blank nodes and on random graphs/datasets, plus an isomorphism oracle on the implementation itself.',
+    level_note='The proof unfolds the nested export level by level (DescrInline.v); the termination argument is the only-referrer chain test. Two fix: commits repaired the three defect shapes (cycles dropped, self reference recursing forever, nodes split across graphs).',
 )
 
 PROPS['C01'] = dict(
@@ -189,7 +187,7 @@ PROPS['C16'] = dict(
 )
 
 PROPS['C07'] = dict(
-    families=[dict(name='c07-subset', quick=6000, thorough=300000)],
+    families=[dict(name='c07-subset', quick=6000, thorough=300000), dict(name='c02-tokens', quick=10000, thorough=300000)],
     slice=40,
     rule='N-Triples documents (grammar-directed generator with comments, CRLF, tabs, multi-byte characters; the repository\'s N-Triples encoder on generated graphs; positive W3C N-Triples files) through the N-Triples, N-Quads, Turtle and TriG decoders; '
          'Turtle documents (grammar-directed Turtle writer covering every production: prefixed names with escapes, relative IRIs under changing base, four string styles, numeric/boolean shorthands, nested property lists, collections, repeated ";"; positive W3C Turtle files) through the Turtle and TriG decoders: '
@@ -197,9 +195,9 @@ PROPS['C07'] = dict(
          'model-backed: each N-Triples document through the N-Quads decoder model',
     trusted_base=['model/NQ.v with nq=false / nq=true is the model of both encoding/ntriples and encoding/nquads (tied to both by the K/C01, K/C15, K/C16, K/C07 correspondences)',
                   'the harness\' Turtle writer (ttlgen.go) decides what is grammatical Turtle'],
-    assumptions=['Turtle and TriG decoders have no Gallina model: N-Triples-in-Turtle and Turtle-in-TriG are explored, not proved'],
-    explanation='theorem: whatever the N-Triples decoder model accepts, the N-Quads decoder model decodes to the same statements, in the default graph, with the same ranges; the four Go decoders are compared on generated and archived documents',
-    level_text='Proof for N-Triples in N-Quads over all inputs and reader endings (C07_nt_subset_nq); exploration by differential decoding for N-Triples in Turtle/TriG and Turtle in TriG.',
+    assumptions=['Turtle and TriG decoders have a Gallina model of their terminal scanners only (model/TurtleTok.v, tied to the Turtle decoder by the c02-tokens correspondence): at document level N-Triples-in-Turtle and Turtle-in-TriG are explored, not proved; the TriG copies of the scanners are reached by differential decoding only'],
+    explanation='theorems: whatever the N-Triples decoder model accepts, the N-Quads decoder model decodes to the same statements, in the default graph, with the same ranges; every IRIREF and STRING_LITERAL_QUOTE the N-Triples/N-Quads scanner model accepts is read by the Turtle scanner model as the same characters up to the same delimiter (the two scanner families are separate code); the four Go decoders are compared on generated and archived documents',
+    level_text='Proof for N-Triples in N-Quads over all inputs and reader endings (C07_nt_subset_nq) and for the shared terminals across the scanner families (C07_iriref_same_in_turtle, C07_string_same_in_turtle, C07_reader_runes_scalar); exploration by differential decoding for whole N-Triples documents in Turtle/TriG and Turtle in TriG.',
     level_note='No defect found by this check itself; the Turtle/TriG fixes recorded under C08/C15/C16 apply to both decoders.',
 )
 
@@ -262,10 +260,13 @@ PROPS['C03'] = dict(
     rule=_CANON_RULE + '; the 65 W3C rdf-canon vectors (SHA-256, SHA-384 for test075) byte-compared with the published results, the poison graphs must end in an error or a self-consistent answer',
     trusted_base=['model/Canon.v: RDFC-1.0 4.4-4.8 as coded in rdfcanon/*.go, parametric in the hash; Go map iteration replaced by first-occurrence order; Heap permutation order of github.com/cespare/permute transcribed',
                   'FNV-1a-64 written out in the model; SHA-256/384 are not modelled (the published W3C results are the oracle for them)'],
-    assumptions=['invariance under renaming and reordering (C03_iso_invariance_statement) is the correctness of RDFC-1.0 modulo hash collisions: stated, not proved; decided by isomorphic copies',
+    partial=['C03_iso_invariance_statement (label/order invariance for datasets that need the N-degree step 5): stated, not proved - it is the correctness of RDFC-1.0 for a collision-free hash and is false for a colliding one; '
+             'proved: C03_first_degree_invariant (every dataset) and C03_simple_invariant_partial (datasets whose first-degree hashes are pairwise distinct); the rest is decided by isomorphic copies and the W3C vectors'],
+    assumptions=['invariance under renaming and reordering for datasets with first-degree hash ties is decided by isomorphic copies (exploration), not proved',
                  'the model does not carry the context cancellation checks of the Go code'],
     explanation='structure theorems for every hash function and dataset: sorted lines, lines = input quads under the issued map with exact original indexes, identifiers c14n0.. in issue order, one-to-one, total on the blank nodes; model = implementation byte for byte under a substituted hash; isomorphic-copy and W3C-vector oracles',
-    level_text='Proof (partial): C03_structure, C03_issued_injective, C03_outcomes over all hash functions and datasets; label/order invariance and non-isomorphic-differ by exploration over symmetric shapes and by the W3C vectors.',
+    level_text='Proof (partial): C03_structure, C03_issued_injective, C03_outcomes over all hash functions and datasets; C03_first_degree_invariant (4.6 hash invariant under relabelling and reordering, every dataset, every hash); '
+               'C03_simple_invariant_partial (the whole canonical document and the identifier map are invariant whenever the first-degree hashes tell the blank nodes apart); invariance for datasets needing the N-degree step and non-isomorphic-differ by exploration over symmetric shapes and by the W3C vectors.',
     level_note='Fix made while building this check: temporary issuer copies shared one label provider (F10), which made the result depend on permutation order.',
 )
 
